@@ -594,6 +594,9 @@ func pickSpec(r *h.Rand) schedSpec {
 }
 
 func gen(r *h.Rand, tier string, emit func([]string)) {
+	// h.NewRand(seed) starts at seed*gamma and steps by gamma, so consecutive seeds give the same
+	// stream shifted by one draw; re-seed from the first output to get unrelated streams per seed.
+	r = h.NewRand(r.Uint64())
 	// 1. exhaustive short histories over two tasks: every sequence of length <= L from a small alphabet
 	alpha := []string{
 		"create a e " + h.HexS("1m") + " 0 1",
